@@ -472,13 +472,14 @@ fn run_accept(tokens: &[&str]) -> String {
         let on_connected = move |_stream: tokio::net::TcpStream, _addr: std::net::SocketAddr| {
             let i = setups2.fetch_add(1, Ordering::SeqCst);
             let ev = evs2.get(i).cloned().unwrap_or_else(|| "r".into());
-            let res: io::Result<Option<(TableService, Transport)>> = if ev == "s" || ev == "b" {
+            let hang = ev == "h";
+            let res: io::Result<Option<(TableService, Transport)>> = if ev == "s" || ev == "b" || ev == "k" {
                 let tr = Transport::new();
                 let sh = tr.0.clone();
                 {
                     let mut g = sh.lock().unwrap();
-                    g.rq.push_back(Rev::Data(if ev == "s" { good.clone() } else { bad.clone() }));
-                    if ev == "s" {
+                    g.rq.push_back(Rev::Data(if ev != "b" { good.clone() } else { bad.clone() }));
+                    if ev != "b" {
                         g.rq.push_back(Rev::Eof);
                     }
                     g.self_wake = true;
@@ -494,7 +495,13 @@ fn run_accept(tokens: &[&str]) -> String {
                 Ok(None)
             };
             n3.notify_one();
-            async move { res }
+            async move {
+                if hang {
+                    // a connection setup that never completes (e.g. a TLS handshake with a silent peer)
+                    std::future::pending::<()>().await;
+                }
+                res
+            }
         };
         let (tx, rx) = tokio::sync::oneshot::channel::<()>();
         let abort = Box::pin(async move {
@@ -514,10 +521,17 @@ fn run_accept(tokens: &[&str]) -> String {
                     return "HUNG".to_string();
                 }
                 let c = tokio::net::TcpStream::connect(addr).await.unwrap();
-                keep.push(c);
+                if ev == "k" {
+                    // the peer resets the connection while it is still in the listen backlog: no await between the
+                    // completed handshake and the reset, so the accept loop (same thread) cannot have accepted it yet
+                    let _ = c.set_linger(Some(Duration::ZERO));
+                    drop(c);
+                } else {
+                    keep.push(c);
+                }
                 let ok = tokio::time::timeout(watchdog(), async {
                     loop {
-                        let done = if ev == "s" || ev == "b" {
+                        let done = if ev == "s" || ev == "b" || ev == "k" {
                             let cs = conns.lock().unwrap();
                             setups.load(Ordering::SeqCst) > i
                                 && cs.last().map_or(false, |s| {
